@@ -25,6 +25,15 @@ def check(run, replay):
             viol.append({"property": "C16", "kind": "not-linearizable", "replay": replay, "msg": "recorded history %s is not linearizable" % replay})
         L = [json.loads(l) for l in open(replay)]
         run.finish("model_checking", viol, {"traces_validated_against_impl": 1, "samples": [L[:8]], "rule": "re-validation of one recorded history"}, ["the history was recorded earlier; it is not re-executed"])
+    # design level: the per-document merge queue as coded (wait, then re-check) keeps merges of one document apart and
+    # loses no wake-up; the simplification "after the wait the key is mine" is refuted
+    MQ = "SPECIFICATION Spec\nCONSTANTS Procs = {procs} Keys = {{\"d1\",\"d2\"}} Rounds = 2 Recheck = {rc}\nINVARIANTS MutualExclusion NoLostWakeup\n{props}CHECK_DEADLOCK FALSE\n"
+    st = run.tlc("MergeQueue.tla", "mq_bad.cfg", workers=4, timeout=600, cfg_text=MQ.format(procs="{1,2,3}", rc="FALSE", props=""), expect_violation=True,
+                 label="MC_MergeQueue(without the re-check after the wait: must be refuted)")
+    if not st["violated"]:
+        raise vlib.Infra("the merge-queue model no longer refutes the missing re-check: model drift")
+    run.tlc("MergeQueue.tla", "mq.cfg", workers=8, timeout=1500, cfg_text=MQ.format(procs="{1,2,3,4}" if thorough else "{1,2,3}", rc="TRUE", props="PROPERTIES EventuallyFinished\n"),
+            label="MC_MergeQueue(as coded)")
     binary = run.build("concrun", race=True)
     runs = 40 if thorough else 8
     viol, calls, accepted = [], 0, 0
